@@ -1,7 +1,9 @@
 ------------------------- MODULE SuffixIndexTraceBwt -------------------------
 (* Trace validation for family "bwt" (C04).                                  *)
 (* run.cfg = [text, alpha, single]; events (arguments are logged as passed): *)
-(*   sa     {}              -> sa     suffix_array(text): IsSortedSA          *)
+(*   sa     {}              -> sa     suffix_array(text): IsValidSA (any      *)
+(*                                    admissible sentinel order; the code's   *)
+(*                                    concrete order is only a DRIFT check)   *)
 (*   bwt    {sa}            -> bwt    bwt[r] = symbol cyclically preceding    *)
 (*                                    the suffix of row r                     *)
 (*   less   {bwt}           -> less   less[c] = #text symbols < c, for every  *)
@@ -9,9 +11,11 @@
 (*   occ    {bwt, k, syms}  -> tab    tab[ci][r] = Occ::get(r, syms[ci]) must *)
 (*                                    be OccDef(bwt, r, c) for every row      *)
 (*   invert {bwt}           -> text   invert_bwt(bwt) = text (single sentinel)*)
-(* The chain sa -> bwt -> occ is closed by demanding that the bwt handed to   *)
-(* less/occ/invert is the BWT by definition of the validated suffix array     *)
-(* (checked in the `bwt` event; later events repeat the same array).          *)
+(* C04 is stated relative to the text's suffix array: everything is judged    *)
+(* against the array the code returned (validated by IsValidSA), never against*)
+(* a spec-computed array.  The chain sa -> bwt -> occ is closed by demanding   *)
+(* that the bwt handed to less/occ/invert is the BWT by definition of that     *)
+(* array (checked in the `bwt` event; later events repeat the same array).     *)
 EXTENDS SuffixIndex, Json, IOUtils
 
 Rec == ndJsonDeserialize(IOEnv.TRACE)
@@ -29,7 +33,7 @@ OccTableOK(bwt, syms, tab) ==
 Explains(cfg, e) ==
     LET c == e.c  r == e.r  t == cfg.text  n == Len(cfg.text) IN
     /\ r.st = "ok"
-    /\ CASE c.op = "sa"   -> IsSortedSA(r.sa, t)
+    /\ CASE c.op = "sa"   -> IsValidSA(r.sa, t)
          [] c.op = "bwt"  -> /\ IsPerm(c.a.sa, n)
                              /\ Len(r.bwt) = n
                              /\ \A x \in 1..n : r.bwt[x] = BwtDef(t, c.a.sa)[x]
@@ -39,6 +43,10 @@ Explains(cfg, e) ==
          [] c.op = "occ"  -> OccTableOK(c.a.bwt, c.a.syms, r.tab)
          [] c.op = "invert" -> r.text = t
          [] OTHER -> FALSE
+
+\* machine-layer conformance (only evaluated when Explains holds): the code's concrete sentinel order
+Exact(cfg, e) ==
+    IF e.c.op = "sa" /\ SentCount(cfg.text) >= 3 THEN IsSortedSA(e.r.sa, cfg.text) ELSE TRUE
 
 \* Cross-check of the specification itself at the real constants (T = 64, k up to 2n): the Occ
 \* machine fed with the definition's checkpoints answers like the definition.  A violation is an
@@ -58,7 +66,9 @@ Next ==
     /\ ok /\ idx < Len(Rec[run].ev)
     /\ LET good == Explains(Rec[run].cfg, Rec[run].ev[idx + 1])
        IN  /\ ok' = good
-           /\ IF good THEN TRUE ELSE PrintT(<<"REJECT", run, idx + 1>>)
+           /\ IF good
+              THEN (IF Exact(Rec[run].cfg, Rec[run].ev[idx + 1]) THEN TRUE ELSE PrintT(<<"DRIFT", run, idx + 1>>))
+              ELSE PrintT(<<"REJECT", run, idx + 1>>)
     /\ idx' = idx + 1
     /\ UNCHANGED run
 Spec == Init /\ [][Next]_vars
